@@ -45,6 +45,20 @@ CHECKS = {
         'enumerated exhaustively. Exploration, not proof.',
         'Index convention of payloads is only pinned for single-kind list events; freshness not asserted after notify-off calls; events of failing calls unconstrained.',
         'DESIGN.md section 3 C09'),
+    'C16': (
+        'schedule fuzzing: real worker threads under a harness-owned deterministic scheduler (sys.settrace line hook + cooperative '
+        'lock shim); Hypothesis-generated worker programs and schedules; exhaustive single-preemption placement',
+        '2-4 worker threads iterate the same named pg.sample loop of the in-memory backend with a shared algorithm (Sweeping, Random, '
+        'regularized_evolution, Deduping) and generated per-trial actions (done, skip, several measurements, end_loop, abandon) and '
+        'group assignments (incl. the falsy groups 0 and ""). Every source line of the tuning/geno/evolution modules is a scheduling '
+        'point; the next worker is chosen by the generated schedule (random choices, bursts, preemption points), so a run is a pure '
+        'function of the case; locks of the code under test are cooperative, so deadlocks are detected instead of hanging. Oracle at '
+        'quiescence: one study object, ids 1..n once, n==N unless ended/abandoned, one group per trial, no new trial for a group with '
+        'a pending one, feedback to the algorithm exactly once per feasible completed trial and never for skipped ones, algorithm and '
+        'summary counters add up, no duplicate sweep point, best trial maximal and feasible. Every single preemption point of 4 fixed '
+        'programs is enumerated in every run (pairs in thorough). Exploration of schedules, not proof.',
+        'Granularity is source lines of the listed files; preemption inside a line or C code is not explored.',
+        'DESIGN.md section 3 C16 and 1.6'),
     'C17': (
         'model-based PBT: generated well-nested scope programs on 1-3 real threads under a harness-owned deterministic schedule; '
         'reference interpreter of the documented nesting rules; exhaustive nestings of the flag scopes',
